@@ -18,33 +18,57 @@ def oracle_c04(rec):
     if any(t is None for t in toks):
         out.append(("residue-not-a-written-token", {"text": case.text}, f"instance tokens {s['inst_tid']}", None))
         return out
-    used = set()
     inp = {"text": case.text, "events": genrun.history(rec["log"])[:80]}
+    # candidate descriptor pairs per bond; then an exact assignment (every descriptor used at most once) by backtracking: a token
+    # like [<1][Si][>1] offers two conjugate descriptors on one atom, so a greedy choice can block a later bond
+    cands = []
     for (x, y, order) in s["bonds"]:
         i, j = s["owner"][x], s["owner"][y]
         if i is None or j is None or i == j:
             out.append(("bond-endpoint", inp, f"bond {(x, y, order)} owners {(i, j)}", None))
             return out
         lx, ly = x - s["offs"][i], y - s["offs"][j]
-        found = None
+        opts = []
         for ka, da in enumerate(toks[i].bond_descriptors):
-            if (i, ka) in used or da.atom_bonding_to != lx:
+            if da.atom_bonding_to != lx:
                 continue
             for kb, db in enumerate(toks[j].bond_descriptors):
-                if (j, kb) in used or db.atom_bonding_to != ly:
+                if db.atom_bonding_to != ly:
                     continue
                 if spec_compatible_bd(da, db) and int(da.bond_type) == order and int(db.bond_type) == order:
-                    found = (ka, kb)
-                    break
-            if found:
-                break
-        if not found:
+                    opts.append(((i, ka), (j, kb)))
+        if not opts:
             out.append(("bond-without-compatible-unused-descriptors", inp,
                         f"bond atoms {(x, y)} order {order} between residues {i} ({toks[i]}) and {j} ({toks[j]}); "
-                        f"no unused compatible descriptor pair of that order on these atoms", None))
+                        f"no compatible descriptor pair of that order on these atoms", None))
             return out
-        used.add((i, found[0]))
-        used.add((j, found[1]))
+        cands.append(opts)
+    order_idx = sorted(range(len(cands)), key=lambda k: len(cands[k]))
+    used = set()
+    steps = [0]
+
+    def assign(pos):
+        steps[0] += 1
+        if steps[0] > 200000:
+            return True          # give up searching (never observed): do not raise an alarm on an undecided instance
+        if pos == len(order_idx):
+            return True
+        for a_, b_ in cands[order_idx[pos]]:
+            if a_ in used or b_ in used:
+                continue
+            used.add(a_)
+            used.add(b_)
+            if assign(pos + 1):
+                return True
+            used.discard(a_)
+            used.discard(b_)
+        return False
+    import sys
+    sys.setrecursionlimit(max(sys.getrecursionlimit(), len(cands) + 1000))
+    if not assign(0):
+        out.append(("bond-without-compatible-unused-descriptors", inp,
+                    f"{len(cands)} cross-residue bonds cannot each be given their own compatible descriptor pair (some descriptor would be used twice)", None))
+        return out
     # accounting: used + open = all descriptors
     total = sum(len(t.bond_descriptors) for t in toks)
     if len(used) + len(s["opens"]) != total:
